@@ -435,6 +435,15 @@ def part_persist(ctx, shard):
                     ctx.decided(("persist", text, "savetxt"))
                     if f2[1] != dim or abs(f2[0] - sc) > 1e-12 * abs(sc) or abs(f2[2] - off) > 1e-9 * max(1.0, abs(off)):
                         ctx.violation("C20|persist|via=savetxt|mode=restored-unit-denotes-another-unit", case, (sc, str(dim), off), (f2[0], str(f2[1]), f2[2]))
+                    # the header line that carries the unit texts, next to a second column and under every column delimiter
+                    for delim in ("\t", ",", ";", " "):
+                        ctx.count("evaluations")
+                        unyt.savetxt(fn, [unyt.unyt_array(np.array([1.0, 2.0]), u), unyt.unyt_array(np.array([3.0, 4.0]), "km/s")], delimiter=delim)
+                        cols = unyt.loadtxt(fn, delimiter=delim)
+                        ctx.decided(("persist", text, "savetxt-2col", delim))
+                        f3 = unit_facts(cols[0].units) if isinstance(cols, tuple) and len(cols) == 2 else None
+                        if f3 is None or f3[1] != dim or abs(f3[0] - sc) > 1e-12 * abs(sc) or unit_facts(cols[1].units)[1] != dim_of(Unit("km/s").dimensions):
+                            ctx.violation("C20|persist|via=savetxt-two-columns|mode=restored-unit-denotes-another-unit", dict(case, delimiter=delim), (sc, str(dim)), None if f3 is None else (f3[0], str(f3[1])))
                 except Exception as e:  # noqa: BLE001
                     ctx.violation(f"C20|persist|via=savetxt|mode=round-trip-raises:{type(e).__name__}", case, None, str(e)[:100])
                 finally:
